@@ -154,8 +154,9 @@ type alphSim struct {
 	parked   []*parkedReq
 	reqSeq   int
 	epoch    uint64
-	faults   map[string][]int // request kind -> queue of fault codes for the next requests
-	raceArm  []raceSpec       // events to append right after the next count / page answer
+	faults   []faultWindow // order-independent fault decisions (rule D3)
+	nFaults  int
+	raceArm  []raceSpec // events to append right after the next count / page answer
 	lastRel  string
 	sameRel  int
 	lastRelT time.Duration
@@ -179,6 +180,26 @@ type alphSim struct {
 	handoffs  []handoff
 	delivered map[string]int // eventId/blockHash/path -> count
 	step      int
+}
+
+// faultWindow: every request of `kind` released while the fake clock is inside [from, until] and
+// whose key hashes into the window's selection gets fault `code`: a pure function of (seed, window
+// serial, request key), independent of the order in which map iteration issues the requests.
+type faultWindow struct {
+	kind        string
+	code        int
+	serial      int
+	from, until time.Duration
+}
+
+func (s *alphSim) faultFor(kind, key string) (int, bool) {
+	now := s.now()
+	for _, f := range s.faults {
+		if f.kind == kind && now >= f.from && now <= f.until && simkit.Hash64(s.prog.Seed, "fault", strconv.Itoa(f.serial), key)%3 != 0 {
+			return f.code, true
+		}
+	}
+	return 0, false
 }
 
 type raceSpec struct {
@@ -560,9 +581,7 @@ func (s *alphSim) answer(p *parkedReq) *http.Response {
 	if s.aborting {
 		return jsonResp(req, 503, map[string]string{"detail": "simulation is shutting down"})
 	}
-	if fq := s.faults[kind]; len(fq) > 0 {
-		f := fq[0]
-		s.faults[kind] = fq[1:]
+	if f, hit := s.faultFor(kind, p.key); hit {
 		s.lastFaultAt = s.now()
 		s.injectedFaultSinceStart = true
 		switch f {
@@ -984,7 +1003,7 @@ func supervisorContext() context.Context {
 func (h alphHarness) Exec(p *simkit.Program) *simkit.Result {
 	res := &simkit.Result{Seed: p.Seed, Prop: p.Prop, Steps: len(p.Steps)}
 	s := &alphSim{res: res, log: &simkit.Log{}, stats: simkit.NewStats(), prog: p, blocks: map[string]*simBlock{}, txIndex: map[string][]logEntry{},
-		tokens: map[string]*tokenMeta{}, faults: map[string][]int{}, reqCount: map[string]int{}, delivered: map[string]int{}}
+		tokens: map[string]*tokenMeta{}, reqCount: map[string]int{}, delivered: map[string]int{}}
 	s.pageSize = int(p.C("page", 100))
 	if s.pageSize < 1 {
 		s.pageSize = 1
@@ -1067,6 +1086,18 @@ func (h alphHarness) Exec(p *simkit.Program) *simkit.Result {
 			s.settleAndCheck()
 		}
 		res.SimNs = int64(s.now())
+		s.mu.Lock()
+		var dk []string
+		for k, v := range s.delivered {
+			dk = append(dk, fmt.Sprintf("%s=%d", k, v))
+		}
+		sort.Strings(dk)
+		for _, l := range dk {
+			s.log.Add("delivered %s", l)
+		}
+		s.log.Add("restarts=%d handoffs=%d", s.restarts, len(s.handoffs))
+		s.log.Cut("outcome")
+		s.mu.Unlock()
 		// shutdown
 		s.mu.Lock()
 		s.stopping = true
@@ -1163,9 +1194,8 @@ func (s *alphSim) runStep(st simkit.Step) {
 		kinds := []string{"count", "page", "height", "header", "canonical", "txstatus", "txevents", "multicall", "version", "clique"}
 		k := kinds[int(st.A)%len(kinds)]
 		s.mu.Lock()
-		for i := int64(0); i < 1+st.C%3; i++ {
-			s.faults[k] = append(s.faults[k], int(st.B)%4)
-		}
+		s.nFaults++
+		s.faults = append(s.faults, faultWindow{kind: k, code: int(st.B) % 4, serial: s.nFaults, from: s.now(), until: s.now() + time.Duration(1+st.C%3)*2*s.poll})
 		s.mu.Unlock()
 	case "reobs":
 		s.reobserve(st)
